@@ -222,7 +222,8 @@ AKEval(k, ready, rdy, inflight, paused, at) ==
        ready => /\ ~paused /\ rdy > 0 /\ inflight < rdy
                 /\ (cl[k].closing => cl[k].clsFresh)
                 /\ rdy \in {cl[k].rdy} \cup cl[k].pend \cup cl[k].was
-                /\ Has(chan, c) => (FALSE \in {chan[c].paused} \cup chan[c].ppend)
+                /\ Has(chan, c) => ((FALSE \in {chan[c].paused} \cup chan[c].ppend) \/ cl[k].sigAt > cl[k].evalAt)
+                                    \* (... or the pause came after the pump's previous report: this one may predate it)
                 /\ Cardinality(HeldBy(k)) < rdy
   /\ cl' = [cl EXCEPT ![k].ready = ready, ![k].evalAt = at, ![k].was = {}, ![k].clsFresh = FALSE]
   /\ UNCHANGED <<minfo, tq, owed, copying, chan, top, cust, done, stash>>
